@@ -1231,7 +1231,7 @@ class Manifest:
         """A list of top level folders in the package/instance directory"""
 
         # VV: manifest can include keys which describe nested folders. Extract the left-most folders out of such keys
-        return [x.split(os.path.pathsep, 1)[0] for x in self._manifest]
+        return [x.split(os.path.sep, 1)[0] for x in self._manifest]
 
     def validate(self):
         """Validates contents of manifest dictionary
@@ -3573,7 +3573,7 @@ class FlowIR(object):
 
             stageRe = re.compile(r"stage([0-9]+)")
             # Check that the putative `stage` part of the reference is an actual stage reference
-            match = stageRe.match(stage)
+            match = stageRe.fullmatch(stage)
             if match is not None:
                 stageIndex = int(match.group(1))
                 hasIndex = True
